@@ -3,6 +3,7 @@ import Blf.Codec.Determinacy
 import Blf.Spec.ObjectTypes
 import Blf.UFile
 import Blf.Queue
+import Blf.FileSeq
 /-!
 # Line-protocol driver for the correspondence harness (tie D)
 
@@ -116,6 +117,93 @@ def handle (cfg : Cfg) (line : String) : String :=
     | none => "bad-class"
   | _ => "bad-request"
 
+/-- zlib stands outside the model: the requests carry the answers of the real zlib as tables -/
+def mkZlib (toks : List String) : FileSeq.Zlib :=
+  let zi := toks.filterMap fun t =>
+    if t.startsWith "zi=" then
+      match (t.drop 3).toString.splitOn ":" with
+      | [c, n, p] => match parseHex c, n.toNat? with
+        | some cb, some k => some (cb, k, if p == "!" then none else parseHex p)
+        | _, _ => none
+      | _ => none
+    else none
+  let zd := toks.filterMap fun t =>
+    if t.startsWith "zd=" then
+      match (t.drop 3).toString.splitOn ":" with
+      | [l, p, c] => match l.toNat?, parseHex p, parseHex c with
+        | some k, some pb, some cb => some (k, pb, cb)
+        | _, _, _ => none
+      | _ => none
+    else none
+  { inflate := fun c n => match zi.find? (fun e => e.1 == c && e.2.1 == n) with
+      | some e => e.2.2
+      | none => none
+    deflate := fun l p => match zd.find? (fun e => e.1 == l && e.2.1 == p) with
+      | some e => e.2.2
+      | none => [] }
+
+def dumpStats (o : Obj) : String :=
+  " ".intercalate ((FileSeq.statsScalars.map fun p => toString p.1 ++ "=" ++ toHex (leBytes p.2 (o.num p.1))) ++
+    ["11=" ++ toHex (o.buf 11), "12=" ++ toHex (o.buf 12), "13=" ++ toHex (leBytes 8 (o.num 13)), "14=" ++ toHex (o.buf 14)])
+
+def outcomeStr : FileSeq.Outcome → String
+  | .ended => "ended" | .openException => "openexc" | .hang => "hang" | .oob => "oob"
+
+def handleFile (cfg : Cfg) (toks : List String) : String :=
+  match toks with
+  | "readfile" :: h :: rest =>
+    match parseHex (if h == "-" then "" else h) with
+    | some file =>
+      let r := FileSeq.readFile (mkZlib rest) cfg.cap file
+      "readfile outcome=" ++ outcomeStr r.outcome ++
+        (if r.outcome == .openException then "" else
+         " count=" ++ toString r.objectCount ++ " usize=" ++ toString r.uncompressedSize ++ " n=" ++ toString r.objs.length ++
+         (if r.outcome == .ended then
+            " stats " ++ dumpStats r.stats ++
+            String.join (r.objs.map fun p => " | " ++ p.1 ++ " " ++
+              (match Gen.allCodecs.find? (·.name == p.1) with
+               | some c => dumpObj c p.2
+               | none => "?"))
+          else ""))
+    | none => "bad-request"
+  | "writefile" :: rest =>
+    -- writefile level=<l> cs=<n> rp=<0|1> [h<id>=<hex> ...] [zd=...] ;; Class f=hex ... ;; Class ...
+    let opts := rest.takeWhile (· != ";;")
+    let getN (k : String) (d : Nat) : Nat :=
+      match opts.find? (·.startsWith (k ++ "=")) with
+      | some t => ((t.drop (k.length + 1)).toString.toNat?).getD d
+      | none => d
+    let hdr := opts.foldl (fun o t =>
+      if t.startsWith "h" then
+        match (t.drop 1).toString.splitOn "=" with
+        | [i, hx] => match i.toNat?, parseHex hx with
+          | some i, some b => if i = 11 ∨ i = 12 ∨ i = 14 then o.setBuf i b else o.setNum i (leVal b)
+          | _, _ => o
+        | _ => o
+      else o) FileSeq.statsDefault
+    let rec groups (l : List String) (cur : List String) (acc : List (List String)) : List (List String) :=
+      match l with
+      | [] => (cur.reverse :: acc).reverse
+      | ";;" :: r => groups r [] (cur.reverse :: acc)
+      | t :: r => groups r (t :: cur) acc
+    let gs := (groups (rest.dropWhile (· != ";;")) [] []).filter (· != [])
+    let objs := gs.filterMap fun g =>
+      match g with
+      | cn :: fs =>
+        match findCodec cn with
+        | some c => some (c, fs.foldl (fun o tok =>
+            match tok.splitOn "=" with
+            | [i, h] => match i.toNat?, parseHex h with
+              | some i, some b => setField c o i b
+              | _, _ => o
+            | _ => o) c.fresh)
+        | none => none
+      | [] => none
+    let out := FileSeq.writeFile (mkZlib opts) cfg.cap
+      { level := getN "level" 1, containerSize := getN "cs" 131072, restorePoints := getN "rp" 1 == 1 } hdr objs
+    "writefile out=" ++ toHex out
+  | _ => "bad-request"
+
 structure Sess where
   uf : UFile.State := {}
   q : Queue.State := {}
@@ -215,6 +303,12 @@ partial def loop (cfg : Cfg) (ss : Sess) (hin : IO.FS.Stream) (hout : IO.FS.Stre
       let r := handleQ acc.1 (op.splitOn ":")
       (r.1, r.2 :: acc.2)) ({ q := {} }, [])
     hout.putStrLn ("qseq " ++ " | ".intercalate outs.2.reverse)
+    loop cfg ss hin hout
+  | "readfile" :: rest =>
+    hout.putStrLn (handleFile cfg ("readfile" :: rest))
+    loop cfg ss hin hout
+  | "writefile" :: rest =>
+    hout.putStrLn (handleFile cfg ("writefile" :: rest))
     loop cfg ss hin hout
   | _ =>
     hout.putStrLn (handle cfg line)
